@@ -18,6 +18,9 @@ ROWS = "1:1 2:2 1:3 4:4 2:5 7:6 1:7 3:8 2:9 1:10 4:11 1:12"
 SITES = [
     # (name, statements (fault node is N1 unless stated), fault node, modes)
     ("reader", "N1=reader 2 2 " + ROWS, "N1", ["err", "tmp", "panic"]),
+    # many distinct keys: a task that combines its own output has flushed rows into its combiners before the failing call
+    # (a retried attempt must not find them there)
+    ("reader", "N1=reader 2 2 " + " ".join("%d:%d" % ((i * 5) % 31, i) for i in range(70)), "N1", ["tmp", "err"]),
     ("writer", "N0=const 2 " + ROWS + " ; N1=writer N0", "N1", ["err", "tmp", "panic"]),
     ("scan", "N0=const 2 " + ROWS + " ; N1=scan N0", "N1", ["err", "tmp", "panic"]),
     ("map", "N0=const 2 " + ROWS + " ; N1=map N0 inc", "N1", ["panic"]),
@@ -116,3 +119,14 @@ def t2(chk, wc, tier, seed):
     ties = [("all_sites_protected", "theorem all_sites_protected : protectionG.length = 5 ∧ ∀ s ∈ protectionG, s.2 = true := by decide",
              "exec/local.go bufferOutput, depReaders; exec/bigmachine.go worker.Run, runCombine: recover before user code, deferred combiner hand-back")]
     vlib.t2_check(chk, wc, "C06", ["BS.Model.Fault"], gen, ties)
+
+
+def finding_key(case, obs, model, oracle):
+    # D27: with machine combiners a retried task combines its rows into the shared, machine-wide combiner a second time
+    # (the documentation of exec.MachineCombiners: "error recovery is currently not implemented for such tasks"):
+    # a one-shot temporary failure in a task feeding a Reduce then yields over-counted values with a nil error
+    cfg = case.split(";;")[0]
+    if " MC" in cfg and " tmp " in case and " once " in case and "reduce" in case \
+            and oracle.startswith("faulty run: Run succeeded with rows"):
+        return "machine-combiner-retry-counts-rows-twice"
+    return None
